@@ -1832,10 +1832,12 @@ ASSUMED = {
     'Vec<rope::Rope>': (1, 'combined map: `chunks[idx]`, one chunk per 5-number segment of the same line (data-structure invariant)'),
     'Vec<&replace_source::Replacement>': (1, 'ReplaceSource::stream_chunks: `repls[i]` under `next_replacement.is_some()`, which is set '
                                              'only from `i < repls.len()` (option-valued invariant)'),
-    'Vec<(&str, usize)>': (4, 'rope.rs piece vectors: Lines::next indexes with its chunk cursor (advanced only while `< chunks.len() - 1`); '
-                              'CharIndices::next indexes after skipping empty pieces (the last piece is never empty); Rope == Rope walks two '
-                              'piece cursors bounded by the total byte count — data-structure invariants of the rope, not comparisons with '
-                              'the indexed vector\'s length'),
+    # round 10: the assumption listed here for CharIndices::next ("the last piece is never empty") was refuted by an independent
+    # finding on the unchanged tree (slicing the rope of a nested concatenation leaves a trailing empty piece); it was removed, the
+    # rule reported the site (4 > 3), defect F17 fixed in /repo (the bound is re-checked after the skip loop, which the engine proves)
+    'Vec<(&str, usize)>': (3, 'rope.rs piece vectors: Lines::next indexes with its chunk cursor (advanced only while `< chunks.len() - 1`); '
+                              'Rope == Rope walks two piece cursors bounded by the total byte count — data-structure invariants of the '
+                              'rope, not comparisons with the indexed vector\'s length'),
     'Vec<u8>': (2, 'rope.rs get_byte: byte indexing after `byte_index < self.len()`, where the rope-level length is the sum of the piece '
                    'lengths / the piece found by the binary search contains the position'),
 }
